@@ -5,6 +5,7 @@ import Hoot.Oracle.Expect
 import Hoot.Oracle.ReqHead
 import Hoot.Oracle.FlowO
 import Hoot.Oracle.Redirect
+import Hoot.Oracle.Exchange
 
 /-! Dispatch of the per-property oracles. -/
 
